@@ -4,7 +4,7 @@
    Impl/Partition.v); a file is what api.ParquetFile shows of it (single file or dataset, schema,
    row groups = rows, first-chunk path, data).                                                  *)
 From Coq Require Import NArith ZArith Bool Ascii String Arith List.
-From Pq Require Import Base.Bytes Impl.Partition Impl.Paths Dataset.Merge Proofs.PartitionStr Proofs.PathsProofs.
+From Pq Require Import Base.Bytes Impl.Partition Impl.Paths Dataset.Merge Proofs.PartitionStr Proofs.PartitionProofs Proofs.PartitionE2E Proofs.PathsProofs Proofs.MergePartition.
 Import ListNotations.
 
 (* util.analyse_paths without a root, for EVERY non-empty list of paths: the base is a prefix of the
@@ -79,6 +79,57 @@ Theorem C14_verify_rejects : forall (S : Type) (seqb : S -> S -> bool) (X : Type
   legacy_merge S seqb X true basepath rel (pf0 :: rest) = MValueError S X.
 Proof. intros. split; [reflexivity|now apply verify_rejects]. Qed.
 Print Assumptions C14_verify_rejects.
+
+(* "with partition columns inferred from their directory names": a list of single files laid out below a given
+   root as k1=v1/.../name (ANY legal file names `pname i`, any number of key=value levels, keys admissible in the
+   sense of C08: Pv_hive).  util.analyse_paths yields exactly the relative paths, and reading the list through them
+   (api.paths_to_cats + core.read_row_group as modelled for C08) returns every file's rows, in the given order,
+   each with the partition columns its directories spell.  External conversions are Section variables as in C08. *)
+Section C14_partition_columns.
+  Variables F T D : Type.
+  Variable feqb : F -> F -> bool.
+  Variable teqb : T -> T -> bool.
+  Variable deqb : D -> D -> bool.
+  Variable f_eq_Z : F -> Z -> bool.
+  Variable show_float : F -> str.
+  Variable parse_float : bool -> str -> option F.
+  Variable show_time_iso show_time_str : T -> str.
+  Variable parse_time_np : bool -> str -> option T.
+  Variable parse_time_fmt parse_time_pd : str -> option T.
+  Variable parse_delta : str -> option D.
+  Hypothesis feqb_spec : forall a b, reflect (a = b) (feqb a b).
+  Hypothesis teqb_spec : forall a b, reflect (a = b) (teqb a b).
+  Hypothesis deqb_spec : forall a b, reflect (a = b) (deqb a b).
+  Variable P : Type.
+
+  Theorem C14_partition_columns :
+    forall (pm : list (str * kind)) (names : list str), NoDup names -> names <> [] -> Forall legal names ->
+    forall ord : list str -> list str, (forall l x, In x (ord l) <-> In x l) ->
+    forall pname : nat -> str, (forall i, clean (pname i) /\ pname i <> []) ->
+    forall (root : str) (file_list : list str) (specs : list (list (value F T D) * nat)) (rowsets : list (list (row F T D P))),
+    specs <> [] ->
+    Forall2 (laid_out F T D show_float parse_float show_time_iso show_time_str parse_time_np parse_time_fmt pm names pname root) file_list specs ->
+    Forall2 (fun sp rs => forall r, In r rs -> key_of F T D P r = fst sp) specs rowsets ->
+    exists bp rel,
+      analyse_paths file_list (Some root) = AOk bp rel /\
+      read_model F T D feqb teqb deqb f_eq_Z parse_float parse_time_np parse_time_fmt parse_time_pd parse_delta P pm ord
+                 (combine rel rowsets)
+      = Some (Hive, map (fun r => (combine names (map (unwrap F T D) (key_of F T D P r)), snd r)) (concat rowsets)).
+  Proof.
+    exact (list_partition_columns F T D feqb teqb deqb f_eq_Z show_float parse_float show_time_iso show_time_str
+             parse_time_np parse_time_fmt parse_time_pd parse_delta feqb_spec teqb_spec deqb_spec P).
+  Qed.
+End C14_partition_columns.
+Print Assumptions C14_partition_columns.
+
+(* non-vacuity of C14_partition_columns on the closed instance: two files under /d/x, one key level *)
+Example C14_partition_columns_nonvacuous :
+  analyse_paths [s_ "/d/x/k=a/f0.parquet"; s_ "/d/x/k=b/f1.parquet"] (Some (s_ "/d/x"))
+  = AOk (s_ "/d/x") [s_ "k=a/f0.parquet"; s_ "k=b/f1.parquet"] /\
+  cread [(s_ "k", KStr)] (combine [s_ "k=a/f0.parquet"; s_ "k=b/f1.parquet"]
+                                  [[([Some (VStr (s_ "a"))], 0%nat); ([Some (VStr (s_ "a"))], 1%nat)]; [([Some (VStr (s_ "b"))], 2%nat)]])
+  = Some (Hive, [([(s_ "k", VStr (s_ "a"))], 0%nat); ([(s_ "k", VStr (s_ "a"))], 1%nat); ([(s_ "k", VStr (s_ "b"))], 2%nat)]).
+Proof. vm_compute. split; reflexivity. Qed.
 
 Example C14_nonvacuous :
   analyse_paths [s_ "/d/x/k=a/f0.parquet"; s_ "/d/x/k=b/f1.parquet"; s_ "/d/x/k=a/f2.parquet"] None
